@@ -685,3 +685,8 @@ def _is_set_expr(e, setvars):
     if isinstance(e, ast.BinOp) and isinstance(e.op, (ast.Sub, ast.BitOr, ast.BitAnd)) and (_is_set_expr(e.left, setvars) or _is_set_expr(e.right, setvars)):
         return True
     return False
+
+
+from ..core import guard_rules  # noqa: E402
+
+guard_rules(globals())
